@@ -275,10 +275,13 @@ def arg_stream(ctx):
                 calls[cid] = (pos, kw)
             ind = "    " if where == "top" else "        "
             body = ([] if where == "top" else [f"    with schedule.{where}():"]) + [ind + l for l in lines]
-            for opts in ("(fold=False)", "", "(verify=False)"):
-                src = (ARG_HDR + f"@move{opts}\ndef prog(b: bool, fa: schedule.DeviceFunction):\n"
-                       "    df = schedule.device_fn(tk3, ilist.IList([0]), ilist.IList([0]))\n"
-                       "    dr = schedule.reverse(df)\n    al = df\n    hd = hop_device()\n"
+            for opts in ("(fold=False)", "", "(verify=False)", "(typeinfer=False)", "(typeinfer=False, verify=False)"):
+                # the device functions the body does not use are not created: a kernel may contain nothing of the schedule
+                # dialect except the call of a captured / parameter device function
+                pre = ("    df = schedule.device_fn(tk3, ilist.IList([0]), ilist.IList([0]))\n" if callee in ("df", "dr", "al") else "") + \
+                      ("    dr = schedule.reverse(df)\n" if callee == "dr" else "") + ("    al = df\n" if callee == "al" else "") + \
+                      ("    hd = hop_device()\n" if callee == "hd" else "")
+                src = (ARG_HDR + f"@move{opts}\ndef prog(b: bool, fa: schedule.DeviceFunction):\n" + pre +
                        '    z = spec.get_static_trap(zone_id="traps")\n' + "\n".join(body) + "\n")
                 case = {"source": src[len(ARG_HDR):], "options": opts or "(default)", "callee": callee, "where": where}
                 ctx.count("arg_stream_programs")
